@@ -8,8 +8,8 @@ from checks import c11 as C11
 from checks.zdirlab import Lab, norm_page
 
 PROPERTY = "C10"
-CONTRACTS = ["contracts.c10"]
-LEVEL = "exploration"
+CONTRACTS = ["contracts.c16", "contracts.c12", "contracts.c10"]
+LEVEL = "other"
 EXPLANATION = (
     "Contract-based: FileManager.delete_note (the removed lines are exactly the note's own lines) and FileManager.add_note "
     "(the note's text replaces one blank line / the last line; every other line is kept, in order) are verified over the "
